@@ -14,7 +14,9 @@ DRIVER = "C06"
 RULE = (
     "programs of the core fragment (qubit / int / bool / struct / nested struct / tuple variables; allocation, move, owned and "
     "borrowed calls, measure/discard/h/cx, tuple build/unpack, tuple element and field read, field assign, return; if / while / "
-    "while True / break / continue). Three streams: (1) the hand-written corpus (facts of DESIGN.md, gap witnesses); (2) a small "
+    "while True / break / continue, `measure(q)` as branch / loop condition, variables re-bound at a type of the other kind). "
+    "Streams: (1) the hand-written corpus (facts of DESIGN.md, gap and fix witnesses, near-miss shapes); (1b) a systematic "
+    "scope of 192 programs that re-bind a variable qubit<->int in a block it flows into; (2) a small "
     "scope enumerated systematically: 5 control skeletons x {owned, borrowed, local} x 4 slots x 5 actions, on a qubit and on a "
     "struct field (thorough: all 18750, quick: a sample); (3) random programs generated valid-by-construction over an abstract "
     "ownership state (branches and loop bodies are repaired to agree), then hit with 0-2 near-miss mutations (drop / duplicate a "
@@ -33,16 +35,20 @@ ASSUMPTIONS = [
     "the model's flat statements and of types into leaf ids is trusted (own code, independent of leaf_places); programs it cannot "
     "translate are skipped and counted",
     "the place-level liveness worklist is the C09 model (Model/Dataflow.lean), characterised by the C09 theorem liveRun_correct "
-    "for any scheduler; its termination within the model's fuel is observed on every case (result `fuel` would be reported), not proved",
+    "for any scheduler; that it finishes within the model's fuel is proved here (live_terminates), so the real worklist's pop "
+    "order need not be controlled: the result is order-independent",
     "reading of 'leak on an infinite path': a linear value is leaked when it is owned at a point from which no continuation "
     "reads it (so `while True: pass` leaks an owned qubit, `while c: pass; use(q)` does not); a borrowed value may idle on a "
     "path that never returns",
-    "every CFG handed to the model is checked to have the shape Prog.WF (driver reply bad-wf otherwise); leaf types of the "
-    "fragment are linear (qubit) or copyable+droppable (int, bool)",
+    "every CFG handed to the model is checked to have the shape Prog.WF (driver reply bad-wf otherwise) and to satisfy RowsOK, "
+    "the signature hypothesis of lin_complete_rows_partial (executable check in the driver, itself not verified); leaf types of "
+    "the fragment are linear (qubit) or copyable+droppable (int, bool)",
 ]
 UNMODELLED = [
     "nested expressions (calls as arguments), comprehensions, subscripts/arrays, nested functions and captures, "
-    "partial application, modifiers (`with control`), affine types (non-copyable but droppable), generics, variables that change type",
+    "partial application, modifiers (`with control`), affine types (non-copyable but droppable), generics",
+    "variables re-bound at a type of different copyability: outside the Lean model (a leaf has one kind there; such CFGs are "
+    "skipped for the model) but inside the generator and the oracle, so real-vs-oracle still covers them (fix 0c7baf7)",
     "the surface->CFG builder and the type checker's block signatures (the model takes the checked CFG; C03/C08 cover them); "
     "a place that is in no scope is the model outcome `crash`, never observed",
     "diagnostic payload beyond the error class (spans, notes); when a place is both used later for real and implicitly returned "
@@ -56,20 +62,22 @@ MANIFEST = {
     "owned at the exit, an owned leaf always has a continuation that reads it (a borrowed one may idle on a path that never "
     "returns), and no whole borrowed variable is moved/consumed/returned/reassigned nor a linear result dropped in reachable "
     "code. lin_complete_partial: outside two known gaps (borrowed arguments + non-terminating regions: NoGap) these conditions "
-    "imply that the model raises no user error (only the internal outcomes crash/fuel remain). lin_complete_false_G1/G2: the "
+    "imply that the model raises no user error (lin_complete_partial), and with block signatures that cover what is read "
+    "(RowsOK, checked on every real CFG) that it accepts (lin_complete_rows_partial; lin_no_crash_partial: no internal error; "
+    "live_terminates: the liveness worklist always finishes within the model's fuel, any visiting order). "
+    "lin_complete_false_G1/G2: the "
     "unrestricted converse is false of the code (concrete witnesses, replayed on the real checker, known findings). Tie on every "
     "run: generated programs are checked by the real check(), the CFG given to check_cfg_linearity is extracted and replayed in "
     "the model (verdict + error class), and an independent exact state-space oracle on the abstract program gives the expected "
-    "verdict (quick ~400 programs; thorough: all 18750 programs of a small scope + 12000 random near-misses).",
+    "verdict (quick ~400 programs; thorough: all 18750 programs of a small scope + 50000 random near-misses).",
     "level_note": "Trusted: Lean kernel + propext/Classical.choice/Quot.sound; the statement of path goodness in Spec/C06.lean "
     "(my reading of 'leak' on infinite paths: owned but dead); the extraction of the real CFG into the model's input and the shape "
     "assumption Prog.WF (checked per case); the generator's reach (sampling; exhaustive only in the small scope). The theorems are "
-    "about the model; nested expressions, arrays, comprehensions, closures, affine types are outside the fragment; termination of "
-    "the liveness worklist is observed, not proved.",
+    "about the model; nested expressions, arrays, comprehensions, closures, affine types are outside the fragment.",
     "technique": "Lean 4 proof over a hand-written model (using the C09 liveness theorems) + differential correspondence on the real "
     "compiler's CFG + independent exact path-semantics oracle",
     "design_ref": "DESIGN.md §5 C06",
-    "ready": False,
+    "ready": True,
 }
 
 # --------------------------------------------------------------------------------------
@@ -138,7 +146,16 @@ def _decl_src():
 
 
 def vtype(v):
+    """variables carry their type in the first letter; `xQ3` / `xI3` are two typings of the same source
+    variable `x3` (a variable re-bound at another type): distinct leaves for the ownership semantics, because
+    after a re-binding the old instance can no longer be named"""
+    if v[0] == "x":
+        return v[1]
     return VTYPE[v[0]]
+
+
+def show_var(v):
+    return "x" + v[2:] if v[0] == "x" else v
 
 
 def sub_types(ty):
@@ -174,15 +191,25 @@ def lin_leaves(pl):
 
 
 def show_place(pl):
-    s = pl[0]
+    s = show_var(pl[0])
     for el in pl[1]:
         s += f".{el}" if isinstance(el, str) else f"[{el}]"
     return s
 
 
+def show_cond(c):
+    """a condition is a bool variable name or ("measure", place)"""
+    return c if isinstance(c, str) else f"measure({show_place(c[1])})"
+
+
+def cond_stmt(c):
+    """the statement a condition evaluates (None for a plain variable)"""
+    return None if isinstance(c, str) else ("call", [], "measure", [c[1]])
+
+
 def show_prog(prog):
     params, ret, body = prog["params"], prog["ret"], prog["body"]
-    ps = ", ".join(f"{v}: {GUPPY_TY[vtype(v)]}" + (" @owned" if (not b and vtype(v) not in ("I", "B")) else "") for v, b in params)
+    ps = ", ".join(f"{show_var(v)}: {GUPPY_TY[vtype(v)]}" + (" @owned" if (not b and vtype(v) not in ("I", "B")) else "") for v, b in params)
     lines = [f"@guppy\ndef f({ps}) -> {GUPPY_TY[ret] if ret else 'None'}:"]
 
     def stmts(ss, ind):
@@ -200,13 +227,13 @@ def show_prog(prog):
             elif k == "ret":
                 lines.append(pad + "return" + (" " + ", ".join(show_place(a) for a in s[1]) if s[1] else ""))
             elif k == "if":
-                lines.append(pad + f"if {s[1]}:")
+                lines.append(pad + f"if {show_cond(s[1])}:")
                 stmts(s[2], ind + 1)
                 if s[3]:
                     lines.append(pad + "else:")
                     stmts(s[3], ind + 1)
             elif k == "while":
-                lines.append(pad + f"while {s[1]}:")
+                lines.append(pad + f"while {show_cond(s[1])}:")
                 stmts(s[2], ind + 1)
             elif k == "wtrue":
                 lines.append(pad + "while True:")
@@ -285,9 +312,11 @@ def oracle(prog):
             elif k == "if":
                 t = build(s[2], cur, brk, cont)
                 e = build(s[3], cur, brk, cont)
-                cur = new([], [], [t, e])
+                o, st = ops_of(cond_stmt(s[1])) if cond_stmt(s[1]) else ([], [])
+                cur = new(o, st, [t, e])
             elif k == "while":
-                head = new([], [], [])
+                o, st = ops_of(cond_stmt(s[1])) if cond_stmt(s[1]) else ([], [])
+                head = new(o, st, [])
                 body = build(s[2], head, cur, head)
                 nodes[head][2] = [body, cur]
                 cur = head
@@ -574,9 +603,14 @@ class _Enc:
             succ.append(f"({bb.idx} {' '.join(str(s.idx) for s in bb.successors)})".replace(" )", ")"))
             ss = [self.stmt(s) for s in bb.statements]
             if bb.branch_pred is not None:
-                if not isinstance(bb.branch_pred, PlaceNode):
+                from guppylang_internals.nodes import GlobalCall
+                if isinstance(bb.branch_pred, PlaceNode):
+                    ss.append(f"(move () ({self.place(bb.branch_pred.place)}))")
+                elif isinstance(bb.branch_pred, GlobalCall):
+                    # visited like an expression whose (bool) value is consumed by the branch
+                    ss.append(f"(call () {self.call(bb.branch_pred)} 0)")
+                else:
                     raise Unsupported("branch predicate " + type(bb.branch_pred).__name__)
-                ss.append(f"(move () ({self.place(bb.branch_pred.place)}))")
             stmts.append(f"({bb.idx} {' '.join(ss)})".replace(" )", ")"))
         bvars, bleaves = [], []
         for v in cfg.entry_bb.sig.input_row:
@@ -593,6 +627,21 @@ class _Enc:
             f("entry", [cfg.entry_bb.idx]), f("exit", [cfg.exit_bb.idx, 1 if cfg.exit_bb.reachable else 0]), f("rows", rows), f("succ", succ),
             f("stmts", stmts),
         ]) + ")"
+
+
+def _forget(m):
+    """drop the generated program's definition from the session-wide DEF_STORE (it keeps the defining frame,
+    i.e. the whole module namespace, alive: ~0.1 MB per program)"""
+    try:
+        from guppylang_internals.engine import DEF_STORE
+        did = m.f.id
+        DEF_STORE.raw_defs.pop(did, None)
+        DEF_STORE.frames.pop(did, None)
+        srcs = getattr(DEF_STORE.sources, "sources", None)
+        if isinstance(srcs, dict):
+            srcs.pop(m.__file__, None)
+    except Exception:  # noqa: BLE001
+        pass
 
 
 def run_real(src):
@@ -637,6 +686,7 @@ def run_real(src):
             return ("other", cls, None, "rejected outside the linearity checker")
         return ("crash", type(exc).__name__, req, repr(exc)[:300])
     finally:
+        _forget(m)
         feed.unload(m)
 
 
@@ -708,6 +758,10 @@ class Gen:
         """one random valid simple statement; returns (stmt, owned', defd') or None"""
         r = self.rng
         k = r.random()
+        if r.random() < 0.12:
+            st = self.rebind_step(owned, defd)
+            if st is not None:
+                return st
         places = self.whole_places(owned, defd)
         if k < 0.22 or not places:
             ty = r.choice(["Q", "Q", "Q", "S", "T", "U", "P", "R"])
@@ -756,6 +810,30 @@ class Gen:
                 return st, (owned - set(lin_leaves(pl)) - set(lin_leaves(o))) | set(lin_leaves(tgt)), defd | {tgt[0]}
         return ("call", [], r.choice(BORROWERS[ty]), [pl]), owned, defd
 
+    def rebind_step(self, owned, defd):
+        """a variable `x<n>` that is re-bound at a type of the other kind (int <-> qubit)"""
+        r = self.rng
+        xs = sorted(v for v in defd if v[0] == "x")
+        if not xs or r.random() < 0.3:
+            n = self.counter.get("x", 0)
+            self.counter["x"] = n + 1
+            if r.random() < 0.5:
+                v = f"xQ{n}"
+                return ("call", [(v, ())], "qubit", []), owned | {(v, ())}, defd | {v}
+            v = f"xI{n}"
+            return ("move", [(v, ())], []), owned, defd | {v}
+        v = r.choice(xs)
+        other = ("xI" if v[1] == "Q" else "xQ") + v[2:]
+        if v[1] == "Q":
+            if (v, ()) in owned:
+                # the qubit must be gone before the name is re-bound: consume it now (the re-binding follows later)
+                return ("call", [], r.choice(["use", "discard"]), [(v, ())]), owned - {(v, ())}, defd
+            return ("move", [(other, ())], []), owned, (defd - {v}) | {other}
+        if r.random() < 0.5:
+            n = self.fresh("I")
+            return ("call", [(n, ())], "geti", [(v, ())]), owned, defd | {n}
+        return ("call", [(other, ())], "qubit", []), owned | {(other, ())}, (defd - {v}) | {other}
+
     def empty_places(self, owned, defd):
         """defined places none of whose linear leaves is owned"""
         out = []
@@ -792,6 +870,11 @@ class Gen:
             k = r.random()
             if depth < 3 and k < 0.16 and self.conds:
                 c = r.choice(self.conds)
+                if r.random() < 0.25:
+                    qs = [p for p in self.whole_places(owned, defd, "Q") if self.usable(p, "o")]
+                    if qs:
+                        c = ("measure", r.choice(qs))
+                        owned = owned - set(lin_leaves(c[1]))
                 t, ot, dt, ft = self.block(owned, defd, depth + 1, in_loop, max(1, budget // 2))
                 e, oe, de, fe = (self.block(owned, defd, depth + 1, in_loop, max(1, budget // 2)) if r.random() < 0.7 else ([], owned, defd, True))
                 if ft and fe:
@@ -827,14 +910,24 @@ class Gen:
                     return out, owned, defd, False
             elif depth < 3 and k < 0.26 and self.conds:
                 c = r.choice(self.conds)
-                self.loop_start = owned
-                b, ob, db, fb = self.block(owned, defd, depth + 1, (owned, defd), max(1, budget // 2))
+                mq = None
+                if r.random() < 0.2:
+                    qs = [p for p in self.whole_places(owned, defd, "Q") if self.usable(p, "o") and self.assignable(p)]
+                    if qs:
+                        # `while measure(q): …`: q is consumed by every evaluation of the condition, so the body
+                        # (and every continue) must refill it; after the loop it is gone
+                        mq = r.choice(qs)
+                        c = ("measure", mq)
+                inside = owned - set(lin_leaves(mq)) if mq else owned
+                start = owned
+                b, ob, db, fb = self.block(inside, defd, depth + 1, (start if not mq else start, defd), max(1, budget // 2))
                 if fb:
-                    rep = self.repair(ob, owned, db)
+                    rep = self.repair(ob, start, db)
                     if rep is None:
                         continue
                     b = b + rep
                 out.append(("while", c, b))
+                owned = inside
             elif depth < 2 and k < 0.29:
                 # while True: the loop only exits through break (state at break = state after the loop)
                 b, ob, db, fb = self.block(owned, defd, depth + 1, (owned, defd), max(1, budget // 2))
@@ -893,6 +986,11 @@ class Gen:
         if rep is None:
             return None
         out += rep
+        if self.ret == "P" and len(ret_places) == 1 and ret_places[0][1] == () and r.random() < 0.4:
+            # `return a, b` instead of `return p`
+            a, b = (self.fresh("Q"), ()), (self.fresh("Q"), ())
+            out.append(("move", [a, b], [ret_places[0]]))
+            ret_places = [a, b]
         out.append(("ret", ret_places))
         return out
 
@@ -1186,6 +1284,9 @@ def _from_json(x):
     def pl(p):
         return (p[0], tuple(p[1]))
 
+    def cd(c):
+        return c if isinstance(c, str) else ("measure", pl(c[1]))
+
     def st(s):
         k = s[0]
         if k == "call":
@@ -1195,9 +1296,9 @@ def _from_json(x):
         if k == "ret":
             return ("ret", [pl(a) for a in s[1]])
         if k == "if":
-            return ("if", s[1], [st(i) for i in s[2]], [st(i) for i in s[3]])
+            return ("if", cd(s[1]), [st(i) for i in s[2]], [st(i) for i in s[3]])
         if k == "while":
-            return ("while", s[1], [st(i) for i in s[2]])
+            return ("while", cd(s[1]), [st(i) for i in s[2]])
         if k == "wtrue":
             return ("wtrue", [st(i) for i in s[1]])
         return tuple(s)
@@ -1246,6 +1347,10 @@ def evaluate(ctx, cases):
         if req is None:
             ctx.bump("model-skipped:" + note[:40])
             continue
+        if model is not None and "rows-not-covering" in model:
+            ctx.broke("assumption RowsOK (block signatures cover what is read; hypothesis of lin_complete_rows_partial / "
+                      f"lin_no_crash_partial) does not hold on the CFG the real compiler produced for:\n{src}")
+            model = model.replace("-rows-not-covering", "")
         if model is not None and model.startswith("ok"):
             if outcome == "ok" and note.startswith("live:"):
                 if " ".join(model.split()[1:]) != note[5:]:
@@ -1307,6 +1412,48 @@ def small_scope():
     return out
 
 
+def rebind_scope():
+    """a variable re-bound at a type of the other kind (qubit <-> int) in a block it flows into:
+    all combinations of start kind x use before the control statement x control statement x
+    {use old, re-bind, use new} in the block after it (192 programs)"""
+    out = []
+    for start in ("Qparam", "Qlocal", "Ilocal"):
+        k0 = start[0]
+        old, new = (f"x{k0}0", ()), (f"x{'I' if k0 == 'Q' else 'Q'}0", ())
+
+        def touch(pl, consume, n):
+            if pl[0][1] == "Q":
+                return ("call", [], "use" if consume else "h", [pl])
+            return ("call", [(f"n{n}", ())], "geti", [pl])
+
+        def define(pl):
+            return ("call", [pl], "qubit", []) if pl[0][1] == "Q" else ("move", [pl], [])
+
+        for s1 in (False, True):
+            for ctl in range(4):
+                for a in (False, True):
+                    for rb in (False, True):
+                        for b in (False, True):
+                            body = [] if start == "Qparam" else [define(old)]
+                            if s1:
+                                body.append(touch(old, False, 0))
+                            if ctl == 1:
+                                body.append(("if", "c0", [("pass",)], []))
+                            elif ctl == 2:
+                                body.append(("while", "c0", [("pass",)]))
+                            elif ctl == 3:
+                                body.append(("while", "c0", [touch(old, False, 1)]))
+                            if a:
+                                body.append(touch(old, True, 2))
+                            if rb:
+                                body.append(define(new))
+                            if b:
+                                body.append(touch(new if rb else old, True, 3))
+                            params = ([(old[0], False)] if start == "Qparam" else []) + [("c0", False)]
+                            out.append(({"params": params, "ret": None, "body": body}, ["rebind:" + start]))
+    return out
+
+
 def tie(ctx):
     cases = []
     for c in _corpus():
@@ -1325,7 +1472,9 @@ def tie(ctx):
                                         "once on a qubit variable and once on a struct with field access")
     for prog, tags in scope:
         cases.append((prog, tags, "scope"))
-    n = ctx.n(300, 12000)
+    for prog, tags in rebind_scope():
+        cases.append((prog, tags, "rebind-scope"))
+    n = ctx.n(300, 50000)
     for i in range(n):
         size = ctx.rng.choice([2, 3, 4, 6, 8])
         prog, tags = gen_case(ctx.rng, size)
